@@ -19,6 +19,7 @@ Violation keys are `clause|site|trigger`; see the helper modules for the
 clauses.  Replay files carry `part` and are dispatched to the helper.
 '''
 
+import os
 import time
 
 from rpmc import seams
@@ -34,12 +35,17 @@ def run(ctx):
 
     ctx.level = 'model_checking'
 
+    # C20_PARTS selects parts while developing / trying mutants (default: all)
+    parts = os.environ.get('C20_PARTS', 'abc')
+    if parts != 'abc':
+        ctx.cap('only parts %r were run (C20_PARTS)' % parts)
+
     t0 = time.time()
-    n_c = part_c.run(ctx)
+    n_c = part_c.run(ctx) if 'c' in parts else 0
     t1 = time.time()
-    n_b = part_b.run(ctx)
+    n_b = part_b.run(ctx) if 'b' in parts else 0
     t2 = time.time()
-    n_a = part_a.run(ctx)
+    n_a = part_a.run(ctx) if 'a' in parts else 0
     t3 = time.time()
 
     ctx.set(wall_part_a_s=round(t3 - t2, 1), wall_part_b_s=round(t2 - t1, 1),
